@@ -13,15 +13,15 @@ Definition enc_lkind (k : lkind) : sexp := SA (match k with KTensor => "t" | KNo
 
 Definition dec_leaf (s : sexp) : option leaf :=
   match s with
-  | SL [u; k; st; pay; dt; nu; es] =>
-      match dec_nat u, dec_lkind k, dec_nat st, dec_Z pay, dec_nat dt, dec_nat nu, dec_nat es with
-      | Some u, Some k, Some st, Some pay, Some dt, Some nu, Some es =>
-          Some {| l_uid := u; l_kind := k; l_stor := st; l_payload := pay; l_dtype := dt; l_numel := nu; l_esize := es |}
-      | _, _, _, _, _, _, _ => None end
+  | SL [u; k; st; pay; dt; nu; es; mm] =>
+      match dec_nat u, dec_lkind k, dec_nat st, dec_Z pay, dec_nat dt, dec_nat nu, dec_nat es, dec_bool mm with
+      | Some u, Some k, Some st, Some pay, Some dt, Some nu, Some es, Some mm =>
+          Some {| l_uid := u; l_kind := k; l_stor := st; l_payload := pay; l_dtype := dt; l_numel := nu; l_esize := es; l_mm := mm |}
+      | _, _, _, _, _, _, _, _ => None end
   | _ => None
   end.
 Definition enc_leaf (l : leaf) : sexp :=
-  SL [enc_nat (l_uid l); enc_lkind (l_kind l); enc_nat (l_stor l); enc_Z (l_payload l); enc_nat (l_dtype l); enc_nat (l_numel l); enc_nat (l_esize l)].
+  SL [enc_nat (l_uid l); enc_lkind (l_kind l); enc_nat (l_stor l); enc_Z (l_payload l); enc_nat (l_dtype l); enc_nat (l_numel l); enc_nat (l_esize l); enc_bool (l_mm l)].
 
 Definition dec_meta (s : sexp) : option nmeta :=
   match s with
@@ -153,7 +153,9 @@ Fixpoint trace (fx : fixes) (hk : bool) (s : state) (ops : list op) : list sexp 
       let s' := fst (step fx hk s o) in
       let info := match o with
                   | ORead p m a k => match snd (read hk s p m a k) with
-                                     | Some (acc, cached, fr) => SL [enc_access acc; enc_cval cached; enc_cval fr; enc_cval (VNat 0)]
+                                     | Some (acc, ret, bodyv) =>
+                                         SL [enc_access acc; enc_cval ret; enc_opt enc_cval bodyv;
+                                             match find_node s p with Some n => enc_cval (fresh s n m a k) | None => SA "none" end]
                                      | None => SA "none" end
                   | _ => SA "none" end in
       SL [enc_outcome (snd (step fx hk s o)); info; enc_caches s'] :: trace fx hk s' r
